@@ -74,7 +74,7 @@ def run_decode(ctx, case):
     spec, fill = case["spec"], case.get("fill", ["zero", 0])
     t = spec["t"]
     want = specs.canon(spec)
-    data = reftdf.encode(spec, dc=filler(fill[0], fill[1]))
+    data = reftdf.encode(spec, dc=filler(fill[0], fill[1]), seg_variant=case.get("segs"))
     with poison.poisoned(0x41):
         ok, res = ctx.must(lambda: specs.lib_decode(t, spec["format"], data, b"\xAB" * 8), f"{t}/decode-reference-bytes",
                            f"decoding layout-conformant {t} bytes written by the reference encoder (don't-care bytes: {fill[0]})")
@@ -87,7 +87,7 @@ def run_decode(ctx, case):
             d = specs.first_diff(got, want)
             if d:
                 ctx.fail(f"{t}/decode-field-{specs.diff_class(d[0])}", f"{t}: {d[0]} decodes to {str(d[1])[:80]}, the bytes say {str(d[2])[:80]}")
-    ctx.case(case, specs.n_items(spec) >= 1, labels=codec.class_labels(spec) + [f"fill={fill[0]}"])
+    ctx.case(case, specs.n_items(spec) >= 1, labels=codec.class_labels(spec) + [f"fill={fill[0]}", f"run-table={case.get('segs') or 'canonical'}"])
 
 
 def _enc_strategy(tier):
@@ -97,7 +97,9 @@ def _enc_strategy(tier):
 def _dec_strategy(tier):
     return st.sampled_from(specs.TYPES).flatmap(lambda t: st.fixed_dictionaries({
         "spec": specs.SPEC[t](tier),
-        "fill": st.tuples(st.sampled_from(["zero", "random", "random", "ff", "text"]), st.integers(0, 2 ** 32 - 1)).map(list)}))
+        "fill": st.tuples(st.sampled_from(["zero", "random", "random", "ff", "text"]), st.integers(0, 2 ** 32 - 1)).map(list),
+        # run tables other than the one the library itself would write: same present frames, rows reordered / runs cut into touching pieces
+        "segs": st.sampled_from([None, None, "reversed", "rotated", "swapped", "split", "split-reversed", "split-rotated"]) if t in specs.RLE_TYPES else st.none()}))
 
 
 # ---------------------------------------------------------------------------------------
@@ -107,7 +109,9 @@ def dt_of(sec):
 
 
 def sec_of(dt):
-    return int((dt - datetime(1970, 1, 1)).total_seconds() // 1) if dt.tzinfo is None else int(dt.timestamp())
+    if dt.tzinfo is not None:   # aware: the instant it denotes
+        return int(dt.timestamp())
+    return int((dt - datetime(1970, 1, 1)).total_seconds() // 1)
 
 
 from ..container import dates31  # signed 32-bit second timestamps (also before 1970)
@@ -164,11 +168,13 @@ def run_entries(ctx, case):
                     dd = specs.first_diff(g, en)
                     if dd:
                         ctx.fail(f"open/entry-field-{specs.diff_class(dd[0])}", f"entry {i}: {dd[0]} read as {dd[1]!r}, bytes say {dd[2]!r}")
+                    if got.type.name != reftdf.TYPE_NAMES[en["type"]]:
+                        ctx.fail("open/entry-type-name", f"entry {i}: type code {en['type']} is reported as {got.type.name}, the format calls it {reftdf.TYPE_NAMES[en['type']]}")
             finally:
                 t.__exit__(None, None, None)
         # write side: same field values through TdfEntry._write
         for i, en in enumerate(case["entries"]):
-            obj = TdfEntry(BlockType(en["type"]), en["format"], en["offset"], en["size"], dt_of(en["cdate"]), dt_of(en["mdate"]),
+            obj = TdfEntry(BlockType[reftdf.TYPE_NAMES[en["type"]]], en["format"], en["offset"], en["size"], dt_of(en["cdate"]), dt_of(en["mdate"]),
                            dt_of(en["adate"]), en["comment"])
             b = io.BytesIO()
             ok, _ = ctx.must(lambda: obj._write(b), "entry/write", "writing a table entry with valid field values")
